@@ -25,6 +25,9 @@ static inline double u2d(uint64_t u) { double d; memcpy(&d, &u, 8); return d; }
 // Children of an item read straight from the public struct layout (data.h), WITHOUT calling any library getter:
 // the harness must be able to enumerate a tree without 'warming up' lazily computed state inside it.
 void raw_children(const cbor_item_t* it, std::vector<cbor_item_t*>& out);
+// everything a client can observe about a tree through the public getters (types, widths, values, lengths, code-point counts, payload
+// bytes, definiteness, chunking, member order), folded into one number; NaNs of one width count as equal
+uint64_t impl_observables_digest(const cbor_item_t* it);
 
 // All allocator blocks an item owns directly (item struct, data buffer, chunk table), in a fixed order.
 void impl_owned_blocks(const cbor_item_t* it, std::vector<const void*>& out);
